@@ -248,6 +248,45 @@ var pathIndependence = ev.Register(&ev.P[pathCase]{
 	Require: []string{"hour23", "leapMonth", "termDay", "lunarYear!=civilYear", "crossesLunarYear"},
 })
 
+// 4. lunar day stepping swept (cheap form: numbers only)
+
+type nextCase struct {
+	J, N int
+}
+
+var lunarNext = ev.Register(&ev.P[nextCase]{
+	Name: "lunar_next_equals_civil_next",
+	Rule: "every civil day of the sweep years (hot years thinned in quick, incl. the reform years; all years in thorough) x n in {1,-1,2,28,29,30,-29,-30,59}; oracle: Lunar.Next(n) has the civil date R-civil(day+n) and the lunar year/month/day of Solar.NextDay(n).GetLunar(); non-trivial: the step leaves the lunar month; distinct = (day, n)",
+	Check: func(c nextCase) error {
+		if c.J+c.N < ref.JDNMin || c.J+c.N > ref.JDNMax {
+			return nil
+		}
+		y, m, d := ref.FromJDN(c.J)
+		s := calendar.NewSolarFromYmd(y, m, d)
+		l := s.GetLunar()
+		ln := l.Next(c.N)
+		y2, m2, d2 := ref.FromJDN(c.J + c.N)
+		if g := ln.GetSolar(); g.GetYear() != y2 || g.GetMonth() != m2 || g.GetDay() != d2 {
+			return fmt.Errorf("lunar %v (civil %s) Next(%d) has civil date %s, R-civil says %04d-%02d-%02d", ymdOf(l), s.ToYmd(), c.N, g.ToYmd(), y2, m2, d2)
+		}
+		if via := ymdOf(calendar.NewSolarFromYmd(y2, m2, d2).GetLunar()); ymdOf(ln) != via {
+			return fmt.Errorf("lunar %v (civil %s) Next(%d) = %v, stepping on the civil side gives %v", ymdOf(l), s.ToYmd(), c.N, ymdOf(ln), via)
+		}
+		return nil
+	},
+	Class: func(c nextCase) ([]string, bool) {
+		y, m, d := ref.FromJDN(c.J)
+		l := calendar.NewSolarFromYmd(y, m, d).GetLunar()
+		dc := dayCountOf(l.GetYear(), l.GetMonth())
+		if t := l.GetDay() + c.N; t < 1 || t > dc {
+			return []string{"leavesMonth"}, true
+		}
+		return nil, false
+	},
+	Disjoint: true,
+	Require:  []string{"leavesMonth"},
+})
+
 // ------------------------------------------------------------------------------------------
 
 func genLunar(t *rapid.T) lunarCase {
@@ -306,6 +345,22 @@ func TestC01(t *testing.T) {
 				}
 			}
 		}
+	}
+	for _, y := range years {
+		if !ev.Mine(y) || (!ev.Thorough() && y > 30 && !(y >= 230 && y <= 245) && y != 1582 && y%7 != 0) {
+			continue
+		}
+		for j := ref.JDN(y, 1, 1); j <= ref.JDN(y, 12, 31); j++ {
+			for _, n := range []int{1, -1, 2, 28, 29, 30, -29, -30, 59} {
+				if !ev.Thorough() && n != 1 && n != 29 && (j+n)%3 != 0 {
+					continue
+				}
+				lunarNext.Eval(nextCase{j, n})
+			}
+		}
+	}
+	if ev.Thorough() {
+		lunarNext.Exhaustive("every civil day 1..9998 x 9 step sizes")
 	}
 	civilLunarCivil.Rapid(ev.Share(ev.Pick(16000, 400000)), func(t *rapid.T) dayCase { return dayCase{gen.Moment(t)} })
 	lunarCivilLunar.Rapid(ev.Share(ev.Pick(16000, 400000)), genLunar)
